@@ -201,10 +201,21 @@ class Executor:
             return True
         if z3.is_false(f):
             return False
+        self.ctx.stats['feasibility_queries'] += 1
+        from .solve import _has_quantifier
+        if _has_quantifier(st.pc):
+            # quantified path conditions: instantiation-only run first (stable; a timeout of the default strategy
+            # would silently lose precision and make the generated VCs differ from run to run)
+            s = self._solver()
+            s.set('smt.mbqi', False)
+            s.set('smt.auto_config', False)
+            s.add(*st.pc)
+            s.add(z3.Not(f))
+            if s.check() == z3.unsat:
+                return True
         s = self._solver()
         s.add(*st.pc)
         s.add(z3.Not(f))
-        self.ctx.stats['feasibility_queries'] += 1
         return s.check() == z3.unsat
 
     def concrete_kind(self, st: State, v: V, wanted=None):
@@ -885,6 +896,18 @@ class Executor:
                     return True
         return False
 
+    def oblige_inv(self, st, name, f, info):
+        """An invariant may be given as one formula or as a dict of named clauses (one obligation per clause)."""
+        if isinstance(f, dict):
+            for k, g in f.items():
+                self.oblige(st, f'{name}.{k}', g, kind='loop', info=info)
+        else:
+            self.oblige(st, name, f, kind='loop', info=info)
+
+    @staticmethod
+    def inv_formula(f):
+        return z3.And(*f.values()) if isinstance(f, dict) else f
+
     def havoc_loop_state(self, node, st: State, spec):
         kinds = {}
         aug_only = self.aug_only_names(node.body + node.orelse)
@@ -938,14 +961,14 @@ class Executor:
         outs = []
         if spec is not None and spec.inv is not None:
             env0 = {'_entry': st, '_phase': 'entry'}
-            self.oblige(st, f'{name}.inv_entry', spec.inv(self, st, env0), kind='loop', info={'line': node.lineno})
+            self.oblige_inv(st, f'{name}.inv_entry', spec.inv(self, st, env0), {'line': node.lineno})
         # arbitrary iteration
         h = st.fork()
         self.havoc_loop_state(node, h, spec)
         h.mark((node.lineno, 'loophead'))
         env = {'_entry': st, '_phase': 'assume'}
         if spec is not None and spec.inv is not None:
-            h.assume(spec.inv(self, h, env))
+            h.assume(self.inv_formula(spec.inv(self, h, env)))
         var0 = spec.variant(self, h, env) if spec is not None and spec.variant is not None else None
         for s, c in self.ev_cond(node.test, h):
             if isinstance(c, Raise):
@@ -959,14 +982,15 @@ class Executor:
             # body branch
             s_body = s.fork()
             s_body.assume(z3.simplify(c))
+            s_body.sym_alloc = True
             if not self.feasible(s_body):
                 continue
             for s2, sig in self.exec_block(node.body, s_body):
                 if sig is None or sig[0] == 'cnt':
                     self.check_kind_stability(node, s2, name)
                     if spec is not None and spec.inv is not None:
-                        self.oblige(s2, f'{name}.inv_preserved', spec.inv(self, s2, dict(env, _phase='preserve')), kind='loop',
-                                    info={'line': node.lineno})
+                        self.oblige_inv(s2, f'{name}.inv_preserved', spec.inv(self, s2, dict(env, _phase='preserve')),
+                                        {'line': node.lineno})
                     if var0 is not None:
                         var1 = spec.variant(self, s2, dict(env))
                         self.oblige(s2, f'{name}.variant_decreases', z3.And(var1 < var0, var0 > 0) if False else
@@ -1025,7 +1049,7 @@ class Executor:
         seq_info = models.iter_seq(self, st, it)   # (seq term | None, length term | None, elem_fn)
         if spec is not None and spec.inv is not None:
             env0 = {'_k': z3.IntVal(0), '_seq': seq_info[0], '_n': seq_info[1], '_entry': st, '_phase': 'entry'}
-            self.oblige(st, f'{name}.inv_entry', spec.inv(self, st, env0), kind='loop', info={'line': node.lineno})
+            self.oblige_inv(st, f'{name}.inv_entry', spec.inv(self, st, env0), {'line': node.lineno})
         h = st.fork()
         self.havoc_loop_state(node, h, spec)
         h.mark((node.lineno, 'loophead'))
@@ -1037,7 +1061,7 @@ class Executor:
         h.assume(n >= 0)
         env = {'_k': k, '_seq': seq_info[0], '_n': n, '_entry': st, '_phase': 'assume'}
         if spec is not None and spec.inv is not None:
-            h.assume(spec.inv(self, h, env))
+            h.assume(self.inv_formula(spec.inv(self, h, env)))
         # exit: all items consumed
         s_exit = h.fork()
         s_exit.assume(k == n)
@@ -1045,6 +1069,7 @@ class Executor:
             outs.extend(self.exec_block(node.orelse, s_exit) if node.orelse else [(s_exit, None)])
         s_body = h.fork()
         s_body.assume(k < n)
+        s_body.sym_alloc = True
         if self.feasible(s_body):
             item = seq_info[2](s_body, k)
             for s1, sig1 in self.assign(node.target, item, s_body):
@@ -1056,8 +1081,7 @@ class Executor:
                         self.check_kind_stability(node, s2, name)
                         if spec is not None and spec.inv is not None:
                             env2 = {'_k': k + 1, '_seq': seq_info[0], '_n': n, '_entry': st, '_phase': 'preserve'}
-                            self.oblige(s2, f'{name}.inv_preserved', spec.inv(self, s2, env2), kind='loop',
-                                        info={'line': node.lineno})
+                            self.oblige_inv(s2, f'{name}.inv_preserved', spec.inv(self, s2, env2), {'line': node.lineno})
                     elif sig[0] == 'brk':
                         outs.append((s2, None))
                     else:
